@@ -1,6 +1,8 @@
-(** C16 — the stale rate in general: for EVERY device rate, every different new rate, every buffer size and every
-    track carrying a probe effect, the histories add; change; callback and load; change; enqueue; callback end with
-    a [process] call whose effect still believes the old rate (F14). *)
+(** C16 — why the comparison in [on_start_processing] is there (F14, repaired): in the COUNTER-MODEL without it
+    ([step_unrepaired]), for EVERY device rate, every different new rate, every buffer size and every track carrying a
+    probe effect, the histories add; change; callback and load; change; enqueue; callback end with a [process] call
+    whose effect still believes the old rate.  With the comparison the same histories are in force
+    ([rate_in_force_all_histories]). *)
 From Coq Require Import ZArith List Bool Lia.
 From KV Require Import C16.Model C16.ProofsWitness C16.ProofsProtocol.
 Import ListNotations.
@@ -16,53 +18,57 @@ Qed.
 Lemma not_all_ok r evs e : In e evs -> ~ ev_ok r e -> ~ Forall (ev_ok r) evs.
 Proof. intros Hi Hn F. rewrite Forall_forall in F. exact (Hn (F e Hi)). Qed.
 
+(** without the comparison, [on_start_processing] leaves the effects of a track alone *)
+Lemma start_unrepaired_effs r i tr effs ar q :
+  exists ar', start_track false false r (Trk i tr effs ar q) = Trk i tr effs ar' [].
+Proof. cbn [start_track andb]. eexists. reflexivity. Qed.
+
 (** a queued track with a probe that believes another rate: the next callback picks it up and lets it process *)
-Lemma stale_callback fo s n tid rc effs ar q i told fb :
-  0 < n -> In (Trk tid rc effs ar q) (s_subq s) -> In (Eff i KProbe told fb) effs -> last_told told <> s_rate s ->
-  ~ Forall (ev_ok (s_rate (fst (step fo s (A_callback n))))) (snd (step fo s (A_callback n))).
+Lemma stale_callback fo s n tid tr effs ar q i told fb :
+  0 < n -> In (Trk tid tr effs ar q) (s_subq s) -> In (Eff i KProbe told fb) effs -> last_told told <> s_rate s ->
+  ~ Forall (ev_ok (s_rate (fst (step_unrepaired fo s (A_callback n))))) (snd (step_unrepaired fo s (A_callback n))).
 Proof.
   intros Hn Ht He Hl. destruct (chunks_of_nonempty n (s_ibs s) Hn) as [c [rest Hc]].
-  cbn [step fst snd s_rate]. rewrite Hc. cbn [flat_map].
+  unfold step_unrepaired. cbn [step_gen fst snd s_rate]. rewrite Hc. cbn [flat_map].
   apply (not_all_ok _ _ (i, last_told told, s_dtr s, c)); [|intros [E _]; exact (Hl E)].
   apply in_or_app. left. unfold process_chunk. cbn [s_subs s_dtr]. apply in_or_app. left.
-  apply in_flat_map. exists (pickup (Trk tid rc effs ar q)). split.
+  apply in_flat_map. exists (start_track false false (s_mix s) (Trk tid tr effs ar q)). split.
   - apply in_map. apply in_or_app. left. apply -> in_rev. exact Ht.
-  - cbn [pickup process_track]. apply in_or_app. right. apply in_flat_map.
+  - destruct (start_unrepaired_effs (s_mix s) tid tr effs ar q) as [ar' E]. rewrite E.
+    cbn [process_track]. apply in_or_app. right. apply in_flat_map.
     exists (Eff i KProbe told fb). split; [exact He|]. cbn. left. reflexivity.
 Qed.
 
 Definition mk (r ibs : Z) (M : list effect) (subq : list track) (pend : list pending) : state :=
-  {| s_rate := r; s_dtr := r; s_ibs := ibs; s_main := M; s_subs := []; s_subq := subq; s_sends := []; s_sendq := []; s_pend := pend |}.
+  {| s_rate := r; s_dtr := r; s_mix := r; s_ibs := ibs; s_main := M; s_subs := []; s_subq := subq; s_sends := []; s_sendq := [];
+     s_pend := pend |}.
 
-Theorem stale_rate_general_l fo sr ibs main tid effs i fb r n :
+Theorem unrepaired_pickup_stale_general_l fo sr ibs main tid effs i fb r n :
   r <> sr -> 0 < n -> In (SEff i KProbe fb) effs ->
-  ~ all_in_force fo (init_state sr ibs main) [G_load 0 DSub (tid, effs); G_enqueue 0; A_change r; A_callback n]
-  /\ ~ all_in_force fo (init_state sr ibs main) [G_load 0 DSub (tid, effs); A_change r; G_enqueue 0; A_callback n].
+  ~ all_in_force_unrepaired fo (init_state sr ibs main) [G_load 0 DSub (tid, effs); G_enqueue 0; A_change r; A_callback n]
+  /\ ~ all_in_force_unrepaired fo (init_state sr ibs main) [G_load 0 DSub (tid, effs); A_change r; G_enqueue 0; A_callback n].
 Proof.
-  intros Hr Hn Hin.
-  assert (Hne : (r =? sr) = false) by (apply Z.eqb_neq; exact Hr).
+  intros Hr Hn Hin. unfold all_in_force_unrepaired.
   set (M := map (fun e => tell ByInit sr (build_effect e)) main).
   set (E := map (tell ByInit sr) (map build_effect effs)).
   set (P := {| p_slot := 0; p_dest := DSub; p_track := build_track (tid, effs); p_loaded := sr |}).
   assert (HinE : In (Eff i KProbe [(ByInit, sr)] (map (tell ByInit sr) (map build_effect fb))) E).
   { unfold E. apply (in_map (tell ByInit sr) _ (Eff i KProbe [] (map build_effect fb))).
     apply (in_map build_effect _ (SEff i KProbe fb)). exact Hin. }
-  assert (S1 : fst (step fo (init_state sr ibs main) (G_load 0 DSub (tid, effs))) = mk sr ibs M [] [P]) by reflexivity.
-  split; intro H; cbn [all_in_force] in H; rewrite S1 in H; destruct H as [_ H].
-  - assert (S2 : fst (step fo (mk sr ibs M [] [P]) (G_enqueue 0)) = mk sr ibs M [Trk tid false E [] []] []) by reflexivity.
+  assert (S1 : fst (step_gen fo false (init_state sr ibs main) (G_load 0 DSub (tid, effs))) = mk sr ibs M [] [P]) by reflexivity.
+  split; intro H; cbn [all_in_force_gen] in H; rewrite S1 in H; destruct H as [_ H].
+  - assert (S2 : fst (step_gen fo false (mk sr ibs M [] [P]) (G_enqueue 0)) = mk sr ibs M [Trk tid sr E [] []] []) by reflexivity.
     rewrite S2 in H. destruct H as [_ H].
-    assert (S3 : fst (step fo (mk sr ibs M [Trk tid false E [] []] []) (A_change r))
-                 = mk r ibs (map (tell ByChange r) M) [Trk tid true E [] []] []).
-    { unfold step, mk. cbn [s_rate s_dtr s_ibs s_main s_subs s_subq s_sends s_sendq s_pend fst]. rewrite Hne. reflexivity. }
+    assert (S3 : fst (step_gen fo false (mk sr ibs M [Trk tid sr E [] []] []) (A_change r))
+                 = mk r ibs (map (tell ByChange r) M) [Trk tid sr E [] []] []) by reflexivity.
     rewrite S3 in H. destruct H as [_ [H _]]. revert H.
-    eapply (stale_callback fo _ n tid true E [] [] i [(ByInit, sr)] _ Hn); [left; reflexivity|exact HinE|].
+    eapply (stale_callback fo _ n tid sr E [] [] i [(ByInit, sr)] _ Hn); [left; reflexivity|exact HinE|].
     cbn. intro X. apply Hr. symmetry. exact X.
-  - assert (S2 : fst (step fo (mk sr ibs M [] [P]) (A_change r)) = mk r ibs (map (tell ByChange r) M) [] [mark_pending P]).
-    { unfold step, mk. cbn [s_rate s_dtr s_ibs s_main s_subs s_subq s_sends s_sendq s_pend fst]. rewrite Hne. reflexivity. }
+  - assert (S2 : fst (step_gen fo false (mk sr ibs M [] [P]) (A_change r)) = mk r ibs (map (tell ByChange r) M) [] [P]) by reflexivity.
     rewrite S2 in H. destruct H as [_ H].
-    assert (S3 : fst (step fo (mk r ibs (map (tell ByChange r) M) [] [mark_pending P]) (G_enqueue 0))
-                 = mk r ibs (map (tell ByChange r) M) [Trk tid true E [] []] []) by reflexivity.
+    assert (S3 : fst (step_gen fo false (mk r ibs (map (tell ByChange r) M) [] [P]) (G_enqueue 0))
+                 = mk r ibs (map (tell ByChange r) M) [Trk tid sr E [] []] []) by reflexivity.
     rewrite S3 in H. destruct H as [_ [H _]]. revert H.
-    eapply (stale_callback fo _ n tid true E [] [] i [(ByInit, sr)] _ Hn); [left; reflexivity|exact HinE|].
+    eapply (stale_callback fo _ n tid sr E [] [] i [(ByInit, sr)] _ Hn); [left; reflexivity|exact HinE|].
     cbn. intro X. apply Hr. symmetry. exact X.
 Qed.
